@@ -143,7 +143,8 @@ def r4(ctx):
     ok = bool(need) and all(vals[g] and vals[g] > 0 for g in need) and vals.get('<default>', 0) > 0
     ctx.emit('C08-R4', ok, BTM, f, f'fragment_size constants: default {vals.get("<default>")}, ' + ', '.join(f'{g}: {vals[g]}' for g in need), key='margin-constants')
     call = [c for c in walk_no_nested(f) if isinstance(c, ast.Call) and last_name(dotted(c.func) or '') == 'tag_multiome_multi_processing']
-    ok = len(call) == 1 and {k.arg: src(k.value) for k in call[0].keywords}.get('fragment_size') == 'fragment_size'
+    from ..util import call_kwargs
+    ok = len(call) == 1 and src(call_kwargs(f, call[0]).get('fragment_size') or ast.Constant(value=None)) == 'fragment_size'
     ctx.emit('C08-R4', ok, BTM, call[0] if call else f, 'the per-method fragment size is what the multiprocessing entry point receives', key='margin-wiring', nontrivial=False)
 
 
